@@ -221,6 +221,7 @@ def run(tier, seed):
     units.append(dict(what='defaults'))
     for part in pmap(dispatch, units):
         chk.merge(part)
+    chk.expect('executions', 2000)
     chk.assumptions = ["log_ode is taken as documented by its module docstring/class attributes (DOCUMENTATION.md does "
                        "not list it)", "one fixed tiny problem per (sde_type, noise_type)"]
     return chk
